@@ -141,6 +141,7 @@ func c06Check(st *c06State, kind string, v interface{}) (msg, finding string) {
 
 var c06DerivSubs = []string{"", "m", "a/b", "modules/vpc-1", "x.tf"}
 var c06DerivSubsOdd = []string{"a b", "a#b", "a%20b", "módulo", "a@1.0.0", "a?b", "a+b", "a&b", "%", "a\"b"}
+
 // relative operands: plain ones, and names holding every character that has
 // a meaning somewhere in the address syntax
 var c06DerivLocals = []string{"./", "./x", "../", "../y", "../../z", "./a/b",
@@ -303,6 +304,8 @@ func c06Examine(env *fw.Env, rnd *fw.Rand, s string) fw.Result {
 
 // literals from the repository's own tests and documentation
 var c06Corpus = []string{
+	// registry hosts whose first label consists of characters that host-name normalisation drops
+	"\u00ad.example.com/ns/name/sys", "\u034f.example.com/ns/name/sys//sub", "\u3002example.com/ns/name/sys", "\u200d.example.com/ns/name/sys@1.0.0", "a.\u00ad.example.com/ns/name/sys",
 	// query strings in which the text of one argument occurs inside another
 	"https://example.com/foo?unarchive=tar.gz&archive=tar.gz", "https://example.com/foo?skiparchive=tar.gz&archive=tar.gz//sub", "https://example.com/foo//sub?note=archive=tar.gz&archive=tar.gz",
 	"https://example.com/foo?xarchive=tgz&archive=tar.gz", "https://example.com/foo?archive=tar.gz&unarchive=tar.gz", "git::https://example.com/r.git?xref=a&ref=b", "git::https://example.com/r.git//m?ref=x&href=ref=y",
